@@ -362,3 +362,16 @@ def register(PROPS, COMPONENTS):
                  "reported by the lr model as an order mismatch (C03), not as a race; deferred_guarded: the orders of the pending "
                  "flag matter for liveness (C06) only, not for data-race freedom"],
     )
+
+
+# A data race on a copy of lr_guarded / on the version objects of cow_guarded IS a failure of "readers see only complete,
+# current states" (C03) / "a shared handle is an immutable snapshot" (C04): the happens-before checker runs on the lr / cow
+# traces as part of those properties' failing-input search too, so that a memory order weakened below what C07_lr / C07_cow
+# need is reported with the racing pair of accesses and not only as an order mismatch of the model.
+PARTS = {
+    "C03": dict(components=["hb-lr"], lean_files=["ConcVerif/Props/C07_lr.lean"],
+                level_text_add="The lr traces are also run through the happens-before race checker (C07_lr_*: the four orders the "
+                               "protocol needs, each shown necessary)."),
+    "C04": dict(components=["hb-cow"], lean_files=["ConcVerif/Props/C07_cow.lean"],
+                level_text_add="The cow traces are also run through the happens-before race checker (C07_cow_*)."),
+}
